@@ -37,7 +37,8 @@ def cases(tier, seed):
                    variant=rnd.choice(['patient', 'study', 'mwl', 'c_find']),
                    delay=rnd.choice([0, 0, 0.02, 0.3]),
                    final=rnd.choice(['real', 'real', 'real', 'failure', 'cancel', 'warning']),
-                   sched=rnd.choice(['uniform', 'user-ahead', 'stall']), seed=seed * 100003 + i)
+                   sched=rnd.choice(['uniform', 'user-ahead', 'stall']), align=rnd.random() < 0.35,
+                   seed=seed * 100003 + i)
 
 
 def _ds(rnd, k):
@@ -71,6 +72,15 @@ def run_case(case):
                                                                    world.handler_errors[:1])})
     try:
         matches = [(_ds(rnd, k), rnd.choice([0xFF00, 0xFF01])) for k in range(case['n'])]
+        if case.get('align'):
+            # encoded length an exact multiple of the fragment payload of the sending side
+            frag = (min(case['smax'], case['cmax']) if variant != 'c_find' else case['smax']) - 6
+            for d, _ in matches:
+                if rnd.random() < 0.6:
+                    base = len(enc(d, ts))
+                    delta = (-base) % frag
+                    if delta % 2 == 0:
+                        d.PatientID = str(d.PatientID) + 'z' * delta
         query = pydicom.Dataset()
         query.PatientName = 'Q*%d' % rnd.randrange(1000)
         query.PatientID = ''
